@@ -90,7 +90,8 @@ impl CountMinSketch {
             return Err(CacheError::InvalidCountMinWidth(ctrs));
         }
 
-        let ctrs = ctrs.next_power_of_two();
+        // a row holds two counters per byte: keep at least one byte per row.
+        let ctrs = ctrs.next_power_of_two().max(2);
         let hctrs = ctrs / 2;
 
         let mut source = StdRng::seed_from_u64(
